@@ -414,3 +414,128 @@ func aliasScribbleSel(w *aliasWalker, bytesOnly bool) int {
 	}
 	return aliasMutate(sel)
 }
+
+// engineListings: listings handed out below the driver — Transaction.ListIndexes / ListCollections /
+// ListDatabases and mongokit.Index.Config() of the committed catalog's indexes. The caller edits the
+// returned key / partialFilterExpression / specification documents in place; the committed indexes
+// stay what they were: same catalog dump, same listing through the driver, a partial unique index
+// still rejects duplicates, DropOneWithKey still finds its index.
+func (x *aliasBytesRun) engineListings() {
+	eng := x.s.engine
+	ctx := context.Background()
+	coll := x.s.coll(2)
+	h := lungo.Handle{aliasNS[2][0], aliasNS[2][1]}
+	x.safely("engine:listings", func() {
+		_, _ = coll.InsertMany(ctx, []interface{}{
+			bson.D{{Key: "_id", Value: int32(1)}, {Key: "p", Value: int32(1)}, {Key: "q", Value: int32(1)}, {Key: "f", Value: int32(1)}},
+			bson.D{{Key: "_id", Value: int32(2)}, {Key: "p", Value: int32(1)}, {Key: "q", Value: int32(1)}, {Key: "f", Value: int32(0)}},
+		})
+		keyPU := bson.D{{Key: "p", Value: int32(1)}, {Key: "q", Value: int32(-1)}}
+		_, _ = coll.Indexes().CreateOne(ctx, mongo.IndexModel{Keys: keyPU, Options: options.Index().SetUnique(true).SetName("pu").
+			SetPartialFilterExpression(bson.D{{Key: "f", Value: bson.D{{Key: "$gt", Value: int32(0)}}}, {Key: "g", Value: bson.D{{Key: "$in", Value: bson.A{int32(1), nil}}}}})})
+		keyDrop := bson.D{{Key: "dk", Value: int32(1)}, {Key: "dl", Value: int32(1)}}
+		_, _ = coll.Indexes().CreateOne(ctx, mongo.IndexModel{Keys: keyDrop, Options: options.Index().SetName("dropme")})
+		x.rebase()
+		driverList := func() string {
+			var ds []bson.D
+			if csr, err := coll.Indexes().List(ctx); err == nil {
+				_ = csr.All(ctx, &ds)
+			}
+			return canonOf(ds)
+		}
+		want := driverList()
+		check := func(what string) {
+			w := "engine-api-shares-memory:" + what
+			x.checkDB(w, what+" results edited in place")
+			if got := driverList(); got != want {
+				x.bad(w, "the driver lists other index specifications after the "+what+" results were edited: "+clip(got, 300)+" was "+clip(want, 300))
+				want = got
+			}
+		}
+		// Transaction.ListIndexes (unlocked and locked transactions)
+		for _, lock := range []bool{false, true} {
+			txn, err := eng.Begin(nil, lock)
+			if err != nil {
+				continue
+			}
+			list, err := txn.ListIndexes(h)
+			if lock {
+				eng.Abort(txn)
+			}
+			if err != nil {
+				continue
+			}
+			for _, spec := range list {
+				// in-place edits of the key and filter documents first (directions, operands), then everything
+				if k, ok := bsonkit.Get(spec, "key").(bson.D); ok {
+					for i := range k {
+						k[i].Value = int32(-7)
+						k[i].Key = "edited"
+					}
+				}
+				if p, ok := bsonkit.Get(spec, "partialFilterExpression").(bson.D); ok && len(p) > 0 {
+					p[0].Key = "edited"
+					if inner, ok := p[0].Value.(bson.D); ok && len(inner) > 0 {
+						inner[0].Value = int32(-100)
+					}
+				}
+			}
+			check("ListIndexes")
+			aliasScribble(&list)
+			check("ListIndexes")
+		}
+		// mongokit.Index.Config() of the committed catalog
+		if ns := eng.Catalog().Namespaces[h]; ns != nil {
+			for _, ix := range ns.Indexes {
+				cfg := ix.Config()
+				if cfg.Key != nil {
+					for i := range *cfg.Key {
+						(*cfg.Key)[i].Key, (*cfg.Key)[i].Value = "edited", int32(-7)
+					}
+				}
+				if cfg.Partial != nil && len(*cfg.Partial) > 0 {
+					(*cfg.Partial)[0].Key = "edited"
+					if inner, ok := (*cfg.Partial)[0].Value.(bson.D); ok && len(inner) > 0 {
+						inner[0].Value = int32(-100)
+					}
+				}
+				aliasScribble(cfg.Key, cfg.Partial)
+			}
+			check("IndexConfig")
+		}
+		// Transaction.ListCollections / ListDatabases
+		if txn, err := eng.Begin(nil, false); err == nil {
+			if list, err := txn.ListCollections(lungo.Handle{h[0], ""}, &bson.D{}); err == nil {
+				aliasScribble(&list)
+				check("ListCollections")
+			}
+			if list, err := txn.ListDatabases(&bson.D{}); err == nil {
+				aliasScribble(&list)
+				check("ListDatabases")
+			}
+			var names1 []string
+			if n, err := x.s.client.Database(h[0]).ListCollectionNames(ctx, bson.D{}); err == nil {
+				names1 = n
+			}
+			if len(names1) == 0 {
+				x.bad("engine-api-shares-memory:ListCollections", "the driver lists no collections after the engine-level listing was edited")
+			}
+		}
+		// enforcement: the partial unique index still rejects a duplicate inside its filter and ignores one outside
+		if _, err := coll.InsertOne(ctx, bson.D{{Key: "_id", Value: int32(3)}, {Key: "p", Value: int32(1)}, {Key: "q", Value: int32(2)}, {Key: "f", Value: int32(2)}, {Key: "g", Value: int32(1)}}); err != nil {
+			x.bad("engine-api-shares-memory:ListIndexes", "a first document inside the partial unique index's filter is rejected after the listings were edited: "+err.Error())
+		}
+		if _, err := coll.InsertOne(ctx, bson.D{{Key: "_id", Value: int32(4)}, {Key: "p", Value: int32(1)}, {Key: "q", Value: int32(2)}, {Key: "f", Value: int32(5)}, {Key: "g", Value: nil}}); err == nil || !lungo.IsUniquenessError(err) {
+			x.bad("engine-api-shares-memory:ListIndexes", fmt.Sprintf("a duplicate inside the partial unique index's filter is not rejected as such after the listings were edited (err %v)", err))
+		}
+		if _, err := coll.InsertOne(ctx, bson.D{{Key: "_id", Value: int32(5)}, {Key: "p", Value: int32(1)}, {Key: "q", Value: int32(2)}, {Key: "f", Value: int32(-1)}}); err != nil {
+			x.bad("engine-api-shares-memory:ListIndexes", "a document outside the partial unique index's filter is rejected after the listings were edited: "+err.Error())
+		}
+		if _, err := coll.Indexes().DropOneWithKey(ctx, keyDrop); err != nil {
+			x.bad("engine-api-shares-memory:ListIndexes", "DropOneWithKey no longer finds the index by its key after the listings were edited: "+err.Error())
+		}
+		if _, err := coll.Indexes().DropOneWithKey(ctx, keyPU); err != nil {
+			x.bad("engine-api-shares-memory:ListIndexes", "DropOneWithKey no longer finds the partial unique index by its key: "+err.Error())
+		}
+	})
+}
